@@ -25,8 +25,9 @@ import (
 
 type aCol struct {
 	name    string
-	typ     string // tinyint, smallint, int, bigint, varchar
+	typ     string // tinyint, smallint, int, bigint, varchar, enum
 	n       int    // varchar length
+	enum    []string
 	notNull bool
 	def     any // nil = no default; int64 or string
 }
@@ -35,11 +36,17 @@ func (c *aCol) typeSQL() string {
 	if c.typ == "varchar" {
 		return fmt.Sprintf("varchar(%d)", c.n)
 	}
+	if c.typ == "enum" {
+		return "enum('" + strings.Join(c.enum, "','") + "')"
+	}
 	return c.typ
 }
 
 func (c *aCol) ddl() string {
 	s := c.name + " " + strings.ToUpper(c.typeSQL())
+	if c.typ == "enum" {
+		s = c.name + " " + c.typeSQL()
+	}
 	if c.notNull {
 		s += " NOT NULL"
 	}
@@ -75,6 +82,17 @@ func aConvert(v any, c *aCol) (any, string) {
 			return nil, "not-null"
 		}
 		return nil, ""
+	}
+	if c.typ == "enum" {
+		// only values of another ENUM definition are converted: by name
+		if x, ok := v.(string); ok {
+			for _, e := range c.enum {
+				if e == x {
+					return x, ""
+				}
+			}
+		}
+		return nil, "out-of-range"
 	}
 	if c.typ == "varchar" {
 		var s string
@@ -192,6 +210,14 @@ func (m *aModel) render() string {
 		s := make([]string, len(r))
 		for i, v := range r {
 			s[i] = aLit(v)
+			if c := m.cols[i]; c.typ == "enum" && v != nil {
+				// the engine's rows hold the 1-based position in the definition
+				for k, e := range c.enum {
+					if e == v {
+						s[i] = fmt.Sprint(k + 1)
+					}
+				}
+			}
 		}
 		out = append(out, "("+strings.Join(s, ",")+")")
 	}
@@ -246,7 +272,14 @@ func checkC21(env *kernel.Env) {
 	m.cols = []*aCol{{name: "id", typ: "int", notNull: true}}
 	m.pk = "id"
 	types := []aCol{{typ: "int"}, {typ: "bigint"}, {typ: "smallint"}, {typ: "tinyint"}, {typ: "varchar", n: 12}, {typ: "varchar", n: 4}}
-	genType := func() aCol { return types[T.Draw(len(types))] }
+	enums := [][]string{{"a", "b", "c"}, {"c", "a"}, {"b", "c", "a", "d"}, {"a", "b"}, {"x y", "a", "12"}}
+	withEnum := T.Bool(1, 3)
+	genType := func() aCol {
+		if withEnum && T.Bool(1, 4) {
+			return aCol{typ: "enum", enum: enums[T.Draw(len(enums))]}
+		}
+		return types[T.Draw(len(types))]
+	}
 	for i, n := 0, T.Range(1, 4); i < n; i++ {
 		c := genType()
 		m.nextC++
@@ -270,7 +303,9 @@ func checkC21(env *kernel.Env) {
 		}
 		for tries := 0; tries < 20; tries++ {
 			var v any
-			if c.typ == "varchar" {
+			if c.typ == "enum" {
+				v = c.enum[T.Draw(len(c.enum))]
+			} else if c.typ == "varchar" {
 				v = strs[T.Draw(len(strs))]
 			} else {
 				v = ints[T.Draw(len(ints))]
@@ -278,6 +313,9 @@ func checkC21(env *kernel.Env) {
 			if cv, bad := aConvert(v, c); bad == "" {
 				return cv
 			}
+		}
+		if c.typ == "enum" {
+			return c.enum[0]
 		}
 		if c.typ == "varchar" {
 			return "a"
@@ -343,6 +381,9 @@ func checkC21(env *kernel.Env) {
 			for i := 0; i < 5 && i < len(row); i++ {
 				f[i] = strings.Trim(FormatVal(row[i]), "'")
 			}
+			// a column type spelled with the table's own default character set and
+			// collation is the same type
+			f[1] = strings.ReplaceAll(f[1], " CHARACTER SET utf8mb4 COLLATE utf8mb4_0900_bin", "")
 			out = append(out, strings.Join(f, "|"))
 		}
 		if m.pk == "" {
@@ -411,7 +452,12 @@ func checkC21(env *kernel.Env) {
 				m.nextC++
 				c.name = fmt.Sprintf("c%d", m.nextC)
 				c.notNull = T.Bool(1, 3)
-				if T.Bool(1, 2) {
+				if c.typ == "enum" {
+					// (a NOT NULL ENUM column is always given its default explicitly)
+					if c.notNull || T.Bool(1, 2) {
+						c.def = c.enum[T.Draw(len(c.enum))]
+					}
+				} else if T.Bool(1, 2) {
 					if c.typ == "varchar" {
 						c.def = "dv"
 					} else {
@@ -481,8 +527,17 @@ func checkC21(env *kernel.Env) {
 			case 3, 4: // MODIFY COLUMN / CHANGE COLUMN: new type and nullability
 				c := m.cols[T.Draw(len(m.cols))]
 				nc := genType()
+				for (nc.typ == "enum") != (c.typ == "enum") {
+					// an ENUM column is redefined as another ENUM; other conversions from /
+					// to ENUM (by position? by name?) are not generated
+					if c.typ == "enum" {
+						nc = aCol{typ: "enum", enum: enums[T.Draw(len(enums))]}
+					} else {
+						nc = types[T.Draw(len(types))]
+					}
+				}
 				nc.name = c.name
-				if nc.typ != "varchar" {
+				if nc.typ != "varchar" && nc.typ != "enum" {
 					// '' -> integer is 0 in this engine everywhere (INSERT too), an error in
 					// strict MySQL: a conversion rule, not an ALTER matter; not generated
 					at := m.ci(c.name)
